@@ -548,12 +548,12 @@ func Spec() *mon.Spec {
 			{Name: "random", Quick: 2500, Thorough: 25000, Run: runRandom},
 		},
 		Floors: map[string]int{
-			"strings": 60000, "distinct_nontrivial": 30000, "exhaustive_strings": 10000, "unit_strings": 2000,
+			"strings": 40000, "distinct_nontrivial": 30000, "exhaustive_strings": 3500, "unit_strings": 2000,
 			"arg_form_bare": 3000, "arg_form_single": 5000, "arg_form_double": 10000,
 			"key_form_single": 5000, "braced_form_bare": 3000, "braced_form_single": 5000, "braced_form_double": 10000, "cmd_form_bare": 3000, "cmd_form_single": 5000, "cmd_form_double": 10000,
 			"var_form_bare": 1000, "var_form_single": 3000, "var_form_double": 10000,
-			"cmd_calls_checked": 30000, "var_uses_checked": 30000, "quoteas_checked": 150000,
-			"strings_invalid_utf8": 10000, "strings_leading_tilde": 3000, "cmdquote_differs_from_quote": 300,
+			"cmd_calls_checked": 30000, "var_uses_checked": 30000, "quoteas_checked": 130000,
+			"strings_invalid_utf8": 9000, "strings_leading_tilde": 3000, "cmdquote_differs_from_quote": 300,
 		},
 	}
 }
